@@ -1111,6 +1111,15 @@ func execKeySeq(line string) h.Result {
 			add("del-backspace2", "decoded to key %d mods %d", k, m)
 		}
 	case kind == "alt" && string(s1) != "\x1b":
+		shadow := false // ESC+sequence is itself (part of) a defined sequence, e.g. linux kcbt = ESC TAB: then that key wins
+		for k := range tb {
+			if k != "\x1b" && (strings.HasPrefix(k, string(b)) || strings.HasPrefix(string(b), k)) {
+				shadow = true
+			}
+		}
+		if shadow {
+			break
+		}
 		_, base, _ := runFeeds(ti, "UTF-8", 80, 24, []feed{{s1, true}})
 		if len(base) == 1 {
 			if bk, bm, ok := keyOf(base[0]); ok {
@@ -1119,7 +1128,7 @@ func execKeySeq(line string) h.Result {
 				}
 			}
 		}
-	case kind == "pair":
+	case kind == "pair" && string(s1) != "\x1b": // ESC followed by a key is the Alt-prefix clause, not a concatenation
 		_, e1, l1 := runFeeds(ti, "UTF-8", 80, 24, []feed{{s1, true}})
 		_, e2, l2 := runFeeds(ti, "UTF-8", 80, 24, []feed{{s2, true}})
 		if l1 == 0 && l2 == 0 && len(e1) == 1 && len(e2) == 1 {
